@@ -503,3 +503,63 @@ func genSshDial() string {
 	b.WriteString("\nend Scrapli.Gen.SshDial\n")
 	return b.String()
 }
+
+// ---- ResolveFile.lean: the order in which util.ResolveFilePath looks for the file ----
+//
+// Fact: for every os.Stat call in ResolveFilePath, in source order: "as-given" when its argument is
+// the parameter and no assignment to the parameter precedes the call, "rewritten" when the argument
+// is the parameter after an assignment to it, "other:<text>" otherwise.
+
+func init() { extraGenerators["ResolveFile.lean"] = genResolveFile }
+
+func genResolveFile() string {
+	var b strings.Builder
+	b.WriteString("-- GENERATED by go/cmd/extract (gen_c14.go) from util/file.go; do not edit.\n")
+	b.WriteString("import ScrapliModel.Bytes\nnamespace Scrapli.Gen.ResolveFile\nopen Scrapli\n\n")
+	files := parseDir(filepath.Join(*repo, "util"))
+	var fd *ast.FuncDecl
+	for _, fn := range sortedNames(files) {
+		for _, d := range files[fn].Decls {
+			if f, ok := d.(*ast.FuncDecl); ok && f.Name.Name == "ResolveFilePath" && f.Recv == nil && f.Body != nil {
+				fd = f
+			}
+		}
+	}
+	var order []string
+	if fd != nil && fd.Type.Params.NumFields() == 1 && len(fd.Type.Params.List[0].Names) == 1 {
+		param := fd.Type.Params.List[0].Names[0].Name
+		var assigned []token.Pos
+		ast.Inspect(fd.Body, func(n ast.Node) bool {
+			if as, ok := n.(*ast.AssignStmt); ok {
+				for _, l := range as.Lhs {
+					if id, ok := l.(*ast.Ident); ok && id.Name == param {
+						assigned = append(assigned, as.Pos())
+					}
+				}
+			}
+			return true
+		})
+		ast.Inspect(fd.Body, func(n ast.Node) bool {
+			c, ok := n.(*ast.CallExpr)
+			if !ok {
+				return true
+			}
+			if p := selPath(c.Fun); len(p) == 2 && p[0] == "os" && p[1] == "Stat" && len(c.Args) == 1 {
+				kind := "other:" + c14ExprText(c.Args[0])
+				if id, ok := c.Args[0].(*ast.Ident); ok && id.Name == param {
+					kind = "as-given"
+					for _, ap := range assigned {
+						if ap < c.Pos() {
+							kind = "rewritten"
+						}
+					}
+				}
+				order = append(order, leanBytes(kind))
+			}
+			return true
+		})
+	}
+	fmt.Fprintf(&b, "def found : Bool := %v\n\n/-- the os.Stat calls of ResolveFilePath in source order -/\ndef statOrder : List Bytes := [%s]\n", fd != nil, strings.Join(order, ", "))
+	b.WriteString("\nend Scrapli.Gen.ResolveFile\n")
+	return b.String()
+}
